@@ -32,10 +32,11 @@ func main() {
 	traces := fs.Int("traces", 4, "random histories")
 	steps := fs.Int("steps", 12, "twin steps per history")
 	grids := fs.Int("grids", 1, "forged-message grids")
+	matrix := fs.Int("matrix", 1, "method x via matrices")
 	out := fs.String("out", ".", "output directory")
 	fs.Parse(os.Args[2:])
 	w := trace.Create(filepath.Join(*out, "trace.ndjson"))
-	stats := staking.Generate(w, staking.RunOpts{Seed: *seed, Traces: *traces, Steps: *steps, Grids: *grids})
+	stats := staking.Generate(w, staking.RunOpts{Seed: *seed, Traces: *traces, Steps: *steps, Grids: *grids, Matrix: *matrix})
 	w.Close()
 	stats["events"] = w.N
 	trace.WriteJSON(filepath.Join(*out, "stats.json"), stats)
